@@ -45,10 +45,17 @@ def _load_ctx_ok(node):
     return isinstance(getattr(node, 'ctx', None), (ast.Load, type(None))) or not hasattr(node, 'ctx')
 
 
-def gen_mutation(rng, tree, n_other):
-    """A mutation descriptor against pure AST `tree` (structure identical to the live one)."""
+def gen_mutation(rng, tree, n_other, focus=None):
+    """A mutation descriptor against pure AST `tree` (structure identical to the live one).  `focus`: node class name
+    of a focus run - most mutations then aim at nodes of that class and their children."""
     kind = rng.choice(MUT_KINDS)
+    if focus and rng.random() < 0.5:
+        kind = 'prim' if rng.random() < 0.6 else kind
     nodes = [t for t in iter_paths(tree) if not isinstance(t[1], ast.expr_context)]
+    if focus and rng.random() < 0.7:
+        fn = [t for t in nodes if t[1].__class__.__name__ == focus or (t[2] is not None and t[2].__class__.__name__ == focus)]
+        if fn:
+            nodes = fn
     in_fstr = set()
     for n in ast.walk(tree):
         if isinstance(n, ast.JoinedStr):
@@ -195,6 +202,8 @@ def gen_mutation(rng, tree, n_other):
                 c.append((path, 'name', 'new_cap'))
             if isinstance(node, ast.MatchMapping):
                 c.append((path, 'rest', None if node.rest else 'new_rest'))
+            if isinstance(node, ast.MatchClass) and node.kwd_attrs:
+                c.append((path, 'kwd_attrs', '__kwd__'))
             if isinstance(node, ast.MatchSingleton):
                 c.append((path, 'value', rng.choice([None, True, False])))
             if isinstance(node, (ast.TypeVar, ast.ParamSpec, ast.TypeVarTuple)):
@@ -218,6 +227,8 @@ def gen_mutation(rng, tree, n_other):
             val = '__cmpop__' + rng.choice(['Lt', 'GtE', 'Eq', 'NotEq', 'Is', 'IsNot', 'In', 'NotIn']) + ':' + str(rng.randrange(8))
         if val == '__names__':
             val = '__names__' + str(rng.randrange(8))
+        if val == '__kwd__':
+            val = '__kwd__' + str(rng.randrange(8))
         if isinstance(val, bytes):
             val = '__bytes__' + val.decode()
         return {'m': kind, 'path': P(path), 'field': fld, 'value': val}
@@ -293,6 +304,10 @@ def apply_mutation(tree, mut, others, live):
         elif isinstance(v, str) and v.startswith('__names__'):
             names = node.names
             names[int(v[9:]) % len(names)] = 'renamed_global'
+            return
+        elif isinstance(v, str) and v.startswith('__kwd__'):
+            attrs = node.kwd_attrs
+            attrs[int(v[7:]) % len(attrs)] = 'renamed_kwd'
             return
         elif isinstance(v, str) and v.startswith('__bytes__'):
             v = v[9:].encode()
@@ -513,7 +528,7 @@ class ReconRun:
                         if len(muts) >= n_mut or tries > n_mut * 4 + 4:
                             break
                         tries += 1
-                        mut = gen_mutation(rng, pure, len(others))
+                        mut = gen_mutation(rng, pure, len(others), cfg.get('focus_cls'))
                         if mut is None:
                             continue
                     if _through_foreign(pure, mut):
